@@ -619,11 +619,18 @@ func Generate(r *vh.Rand, o GenOpts) *Prog {
 		}
 	}
 	p.Main = main
-	if o.NoReturn && len(p.Funs) > 0 {
-		f := p.Funs[r.Intn(len(p.Funs))]
-		f.Body = f.Body[:len(f.Body)-1]
-		if len(f.Body) == 0 || r.Chance(50) {
-			f.Body = append(f.Body, ExprS(Set(vInt, g.smallInt())))
+	if o.NoReturn {
+		// an int function loses its final return; its last statement becomes an int assignment,
+		// so that the value the interpreter hands back instead of null keeps the program well-typed
+		var cands []int
+		for i, info := range infos {
+			if !info.retStr {
+				cands = append(cands, i)
+			}
+		}
+		if len(cands) > 0 {
+			f := p.Funs[vh.Pick(r, cands)]
+			f.Body = append(f.Body[:len(f.Body)-1], ExprS(Set(vInt, g.smallInt())))
 		}
 	}
 	return p
